@@ -3,6 +3,17 @@
 REFLECT = "Go reflect / runtime semantics as specified in the model (DESIGN.md 3.4)"
 
 PROPS = {
+    "C20": {
+        "gens": [],
+        "lean": "Anko.Props.C20",
+        "streams": [{"name": "prov", "n_quick": 100, "n_thorough": 100},
+                    {"name": "ops", "n_quick": 1500, "n_thorough": 30000}],
+        "trusted": ["the operator / interpreter model (validated differentially each run, operands in variable, slice-element and literal modes)"],
+        "assumptions": ["RV.ity models reflect kind Interface; the model never inspects it except through the unwrap idiom (syntactic fact of lean/Anko/Model/Eval.lean)"],
+        "partial": ["the invariance theorems are per operation (operators, in, switch, conditions, indices, nil test, conversion, callee); the commutation of the WHOLE "
+                    "evaluator with flag erasure is not yet a theorem - whole-program invariance is established by the prov stream (templates x values x provenance chains) "
+                    "on the interpreter and, for F0, against the model"],
+    },
     "C14": {
         "gens": ["AstWrites"],
         "lean": "Anko.Props.C14",
@@ -122,6 +133,16 @@ PROPS = {
 
 # Texts for MANIFEST.json (level_claimed.text, level_note, technique, design_ref)
 MANIFEST_TEXT = {
+    "C20": {
+        "text": "Machine-checked proofs (Lean 4) that every operation of the model - all unary/binary operators, ==/!=, in, switch matching, "
+                "conditions, index/slice/make sizes, the nil test of ??, conversion to Go parameters, callee selection - depends on its "
+                "operands only through the dynamic value, never on the interface flag that records provenance. Search/oracle (metamorphic, "
+                "implementation only): 53 operation templates x 13 operand values (incl. channels, pointers, functions) x provenance "
+                "chains of length 1-3 over 11 wrappers must give the same outcome as the plain variable; F0 cases also through the model.",
+        "note": "Trusted: Lean kernel; model fidelity (differential). Follows the repaired interpreter (fix commits 46a7c4f, 3e4c598).",
+        "technique": "Lean 4 proof (per-operation invariance) + metamorphic provenance correspondence",
+        "design_ref": "DESIGN.md section 6 (C20)",
+    },
     "C14": {
         "text": "Machine-checked (Lean 4, `decide`) obligations over facts REGENERATED on every run by a go/types pass over vm/, env/ and the "
                 "lexer: the list of assignments / SetPosition calls targeting fields of AST nodes not allocated in the writing function is "
